@@ -13,10 +13,14 @@
 (*                                                                         *)
 (* Behaviour of the names used (so that resolution is observable):         *)
 (*   built-in  addone            adds 1                                    *)
+(*   built-in  push v_1, stack push=1 (steps of a pipeline) add 0: they    *)
+(*             copy a coordinate to the pipeline's stack                   *)
 (*   user op   version v         adds 10 * v                               *)
 (*   literal   "lit100","lit200" the probe t_add c=100 / c=200             *)
 (* A macro body is a name - resolved when the macro is instantiated - or a *)
 (* literal.  The sum of a pipeline's step values is its value.             *)
+(* The sets of names and definitions are replaced in MC_C18_names*.cfg     *)
+(* (user operators named push / stack; resources without a colon).         *)
 (***************************************************************************)
 EXTENDS Integers, Sequences, FiniteSets, TLC, Json
 
@@ -24,20 +28,52 @@ CONSTANTS Ctxs,        \* context ids
           MaxLen,      \* history length bound
           WithGrids    \* BOOLEAN: include the grid cache actions (Plain only)
 
-OpNames  == {"addone", "myop"}                 \* "addone" collides with a built-in
-Builtins == {"addone"}
+\* ---- the names (every set can be replaced in a cfg: `X <- Y`; the base sets are those of the first build) ----
+\* user operator names.  "addone" collides with an ordinary built-in; "push" and "stack" collide with the
+\* built-ins that the pipeline operator executes itself (the stack machine): Rumination 000, "the user defined
+\* operators overshadow the built-in names for any subsequent instantiations" - inside pipelines as well
+OpNames  == {"addone", "myop"}
+Versions == {1, 2}
+\* what a built-in adds to the first coordinate.  `push v_1` and `stack push=1` copy the first coordinate
+\* onto the pipeline's stack and leave the operands alone (Rumination 002, operators `push`, `stack`)
+BuiltinVal == [addone |-> 1, push |-> 0, stack |-> 0]
+Builtins == DOMAIN BuiltinVal
+\* built-ins that mean something only as steps of a pipeline: a definition that resolves to one of them
+\* standing alone is not documented, hence not generated (neither as success nor as failure)
+OnlyInPipelines == {"push", "stack"}
 MacroNames == {"m:x"}
+\* resources registered under a name WITHOUT a colon are never taken for macros (Rumination 000: "macros
+\* cannot overshadow built-ins: ... macros need to indicate their macro-identity by including a `:`-sigil in
+\* their name"): neither a built-in nor an unknown name is affected by them
+PlainResNames == {}
+PlainResBodies == {"lit100"}
 Bodies   == {"addone", "myop", "lit100", "lit200", "m:x"}   \* "m:x": self reference
+\* a definition and the names of its steps.
 \* "addone k=a:b" / "myop k=a:b": a colon in a parameter VALUE does not make the name a macro name
+DefSteps == [d \in {"addone", "myop", "m:x", "push v_1", "stack push=1"} |-> <<d>>] @@
+            ( "addone | m:x"          :> <<"addone", "m:x">> @@
+              "m:x | myop"            :> <<"m:x", "myop">> @@
+              "m:x | addone"          :> <<"m:x", "addone">> @@
+              "addone k=a:b"          :> <<"addone">> @@
+              "myop k=a:b"            :> <<"myop">> @@
+              "push v_1 | addone"     :> <<"push v_1", "addone">> @@
+              "addone | stack push=1" :> <<"addone", "stack push=1">> @@
+              "push v_1 | addone | stack push=1" :> <<"push v_1", "addone", "stack push=1">> )
 Defs     == {"addone", "myop", "m:x", "addone | m:x", "m:x | myop", "addone k=a:b", "myop k=a:b"}
 GridNames == {"g1.datum", "g2.datum"}
+\* the operator name of a step / of a macro body (text with parameters)
+NameOf(t) == CASE t = "push v_1" -> "push" [] t = "stack push=1" -> "stack" [] OTHER -> t
+
+ASSUME /\ Defs \subseteq DOMAIN DefSteps
+       /\ OpNames \cap MacroNames = {} /\ PlainResNames \cap MacroNames = {}
 
 VARIABLES cons, res, ops, cache, nextObj, hist
 vars == <<cons, res, ops, cache, nextObj, hist>>
 view == <<cons, res, ops, cache, nextObj>>      \* hist is observation only
 
-Ok(v)  == [ok |-> TRUE, v |-> v]
-Err    == [ok |-> FALSE]
+\* sb: the operator is a bare pipeline-only built-in (see OnlyInPipelines)
+Ok(v)  == [ok |-> TRUE, v |-> v, sb |-> FALSE]
+Err    == [ok |-> FALSE, v |-> 0, sb |-> FALSE]
 
 \* ---- resolution: the documented order ------------------------------------
 \* pipeline first (handled by ResolveDef), then user-registered operator,
@@ -45,26 +81,27 @@ Err    == [ok |-> FALSE]
 IsMacroName(n) == n \in MacroNames
 
 RECURSIVE ResolveName(_, _, _)
-ResolveName(c, n, fuel) ==
+ResolveName(c, t, fuel) ==
+    LET n == NameOf(t) IN
     IF fuel = 0 THEN Err                                   \* the recursion guard
     ELSE IF n = "lit100" THEN Ok(100) ELSE IF n = "lit200" THEN Ok(200)
     ELSE IF ~IsMacroName(n) /\ n \in DOMAIN cons[c] THEN Ok(10 * cons[c][n])
     ELSE IF IsMacroName(n)
          THEN IF n \in DOMAIN res[c] THEN ResolveName(c, res[c][n], fuel - 1) ELSE Err
-    ELSE IF n \in Builtins THEN Ok(1)
+    ELSE IF n \in Builtins THEN [ok |-> TRUE, v |-> BuiltinVal[n], sb |-> n \in OnlyInPipelines]
     ELSE Err
 
-StepsOf(d) == CASE d = "addone | m:x" -> <<"addone", "m:x">>
-                [] d = "m:x | myop"   -> <<"m:x", "myop">>
-                [] d = "addone k=a:b" -> <<"addone">>
-                [] d = "myop k=a:b"   -> <<"myop">>
-                [] OTHER -> <<d>>
+StepsOf(d) == IF d \in DOMAIN DefSteps THEN DefSteps[d] ELSE <<d>>
 
+RECURSIVE SumTo(_, _)
+SumTo(r, k) == IF k = 0 THEN 0 ELSE r[k].v + SumTo(r, k - 1)
+
+\* judged: FALSE for a definition that is a bare pipeline-only built-in (not documented: not generated)
 ResolveDef(c, d) ==
     LET s == StepsOf(d)
         r == [i \in 1..Len(s) |-> ResolveName(c, s[i], 4)]
-    IN IF \E i \in 1..Len(s) : ~r[i].ok THEN Err
-       ELSE Ok(IF Len(s) = 1 THEN r[1].v ELSE r[1].v + r[2].v)
+    IN IF \E i \in 1..Len(s) : ~r[i].ok THEN [ok |-> FALSE, v |-> 0, judged |-> TRUE]
+       ELSE [ok |-> TRUE, v |-> SumTo(r, Len(s)), judged |-> ~(Len(s) = 1 /\ r[1].sb)]
 
 \* ---- actions --------------------------------------------------------------
 Handles == DOMAIN ops
@@ -77,13 +114,14 @@ Init == /\ cons = [c \in Ctxs |-> <<>>] /\ res = [c \in Ctxs |-> <<>>]
         /\ ops = <<>> /\ cache = <<>> /\ nextObj = 1 /\ hist = <<>>
 
 RegisterOp == /\ Room
-              /\ \E c \in Ctxs, n \in OpNames, v \in {1, 2} :
+              /\ \E c \in Ctxs, n \in OpNames, v \in Versions :
                     /\ cons' = [cons EXCEPT ![c] = (n :> v) @@ @]
                     /\ Record([a |-> "regop", c |-> c, n |-> n, v |-> v])
               /\ UNCHANGED <<res, ops, cache, nextObj>>
 
 RegisterResource == /\ Room
-                    /\ \E c \in Ctxs, n \in MacroNames, b \in Bodies :
+                    /\ \E c \in Ctxs, n \in MacroNames \cup PlainResNames :
+                       \E b \in (IF n \in MacroNames THEN Bodies ELSE PlainResBodies) :
                           /\ res' = [res EXCEPT ![c] = (n :> b) @@ @]
                           /\ Record([a |-> "regres", c |-> c, n |-> n, b |-> b])
                     /\ UNCHANGED <<cons, ops, cache, nextObj>>
@@ -92,7 +130,7 @@ RegisterResource == /\ Room
 OpOk == /\ Room
         /\ \E c \in Ctxs, d \in Defs :
               LET r == ResolveDef(c, d) IN
-              /\ r.ok
+              /\ r.ok /\ r.judged
               /\ ops' = ops @@ (NewHandle :> [c |-> c, val |-> r.v, obj |-> 0])
               /\ Record([a |-> "op", c |-> c, d |-> d, ok |-> TRUE, val |-> r.v, h |-> NewHandle])
         /\ UNCHANGED <<cons, res, cache, nextObj>>
